@@ -149,6 +149,15 @@ type refTable struct {
 	cells map[string]map[string]int64 // row -> col -> value
 	cols  map[string]struct{}
 	errs  uint64
+
+	// interleaved trims. The statement defines what a trim does to cells, rows and
+	// columns, not what it does to the redundant totals: the total of a row / column
+	// that lost some but not all of its cells is not judged ("tainted") until that
+	// row / column disappears entirely; one that is created again later starts clean.
+	trims    int
+	taintRow map[string]struct{}
+	taintCol map[string]struct{}
+	everCols map[string]struct{} // every column name seen so far (set from the first trim on)
 }
 
 func newRefTable(delim string) *refTable {
@@ -183,6 +192,55 @@ func (r *refTable) direct(col, row string, inc int64) {
 	}
 	m[col] += inc
 	r.cols[col] = struct{}{}
+	if r.everCols != nil {
+		r.everCols[col] = struct{}{}
+	}
+}
+
+// applyTrim removes exactly the selected existing cells, then every row and
+// column left without a cell.
+func (r *refTable) applyTrim(pred func(col, row string, val int64) bool) {
+	if r.everCols == nil {
+		r.everCols = map[string]struct{}{}
+		r.taintRow = map[string]struct{}{}
+		r.taintCol = map[string]struct{}{}
+	}
+	for c := range r.cols {
+		r.everCols[c] = struct{}{}
+	}
+	touched := map[string]struct{}{}
+	for row, m := range r.cells {
+		removed := false
+		for col, v := range m {
+			if pred(col, row, v) {
+				delete(m, col)
+				removed = true
+				touched[col] = struct{}{}
+			}
+		}
+		if len(m) == 0 {
+			delete(r.cells, row)
+			delete(r.taintRow, row)
+		} else if removed {
+			r.taintRow[row] = struct{}{}
+		}
+	}
+	for c := range r.cols {
+		has := false
+		for _, m := range r.cells {
+			if _, ok := m[c]; ok {
+				has = true
+				break
+			}
+		}
+		if !has {
+			delete(r.cols, c)
+			delete(r.taintCol, c)
+		} else if _, t := touched[c]; t {
+			r.taintCol[c] = struct{}{}
+		}
+	}
+	r.trims++
 }
 
 func (r *refTable) colTotal(col string) int64 {
